@@ -770,6 +770,11 @@ async fn main() -> Result<()> {
         }
     }
 
+    // A run in which a planned operation failed must not report success to the caller.
+    if !stats.errors.is_empty() {
+        std::process::exit(1);
+    }
+
     Ok(())
 }
 
